@@ -20,6 +20,7 @@
 From Coq Require Import ZArith QArith Qcanon List Bool Lia Permutation.
 From ScaredV Require Import Lib.QcSum Lib.Interleave Run.Compare Model.Accum.
 From ScaredV Require Model.Partitioned Model.Template Model.Mia Model.Ttest.
+From ScaredV Require Generated.KernelWrites.
 Import ListNotations.
 Local Open Scope Qc_scope.
 
@@ -355,6 +356,45 @@ End TtestKernel.
 
 (* a prange body that also accumulates into ONE shared scalar (the edit the schedule theorem excludes) *)
 Definition shared_prange : prange nat := Build_prange 2 (fun i => [(0%nat, 1)]).
+
+(* ================================================================================ write targets read off the source (T-tie) *)
+(* Generated/KernelWrites.v (tools/translate/tr_kernels.py) lists, for the body of each of the five prange loops, every
+   subscript store [KW array shared position guard0], every subscript load of a stored shared array [KR] and every scalar
+   reduction [KRed].  A store is harmless when the array is private to the iteration, or every store of the body to that
+   array is under `if ivar == 0`, or every store to it is unguarded and carries the induction variable at one and the same
+   index position; loads of stored shared arrays and reductions do not occur. *)
+Section KernelWrites.
+  Import KernelWrites String.
+  Definition opt_nat_eqb (a b : option nat) : bool :=
+    match a, b with Some x, Some y => Nat.eqb x y | None, None => true | _, _ => false end.
+  Definition kw_event_ok (evs : list kevent) (e : kevent) : bool :=
+    match e with
+    | KW a shared pos g0 =>
+        negb shared
+        || (if g0
+            then forallb (fun e' => match e' with KW a' _ _ g0' => negb (String.eqb a a') || g0' | _ => true end) evs
+            else match pos with
+                 | Some j => forallb (fun e' => match e' with
+                                                | KW a' _ pos' g0' => negb (String.eqb a a') || (negb g0' && opt_nat_eqb pos' (Some j))
+                                                | _ => true end) evs
+                 | None => false
+                 end)
+    | KR _ | KRed _ => false
+    end.
+  Definition kernel_writes_ok (k : string * list kevent) : bool := forallb (kw_event_ok (snd k)) (snd k).
+  (* the shared arrays a kernel stores to, with the index position of the induction variable (None: iteration 0 only) *)
+  Definition kw_summary (k : string * list kevent) : string * list (string * option nat) :=
+    (fst k, flat_map (fun e => match e with KW a true pos _ => [(a, pos)] | _ => [] end) (snd k)).
+  (* what the owner functions above assume: pcell_owner (sum, sum_square by axis 0 = sample; counters by sample 0),
+     tcell_owner1 (_exi, _exxi by axis 1 = sample; counters by sample 0), tcell_owner2 (everything by axis 0 = class),
+     mcell_owner (axis 0 = sample), ucell_owner (axis 0 = sample) *)
+  Definition model_footprints : list (string * list (string * option nat)) :=
+    [("partitioned_1", [("self_sum", Some 0); ("self_sum_square", Some 0); ("self_counters", None)]);
+     ("template_1", [("self_exi", Some 1); ("self_counters", None); ("self_exxi", Some 1)]);
+     ("template_2", [("self_counters", Some 0); ("self_exi", Some 0); ("self_exxi", Some 0)]);
+     ("mia", [("self_accumulators", Some 0)]);
+     ("ttest", [("self_sum", Some 0); ("self_sum_squared", Some 0)])]%nat%string.
+End KernelWrites.
 
 (* ================================================================================ 5. correspondence cases *)
 Local Open Scope Z_scope.
